@@ -142,7 +142,7 @@ pub fn run(cfg: &Cfg, rep: &mut Report) {
     let thorough = cfg.tier_thorough;
 
     // --- corpus: hand-written boundary histories (always first) ---
-    let lbl = |t: &mut Rose, rng: &mut Rng| label(rng, t, &LabelOpts { len_mode: LenMode::Mixed, ..Default::default() });
+    let lbl = |t: &mut Rose, rng: &mut Rng| { let rl = rng.chance(1, 3); label(rng, t, &LabelOpts { len_mode: LenMode::Mixed, root_len: rl, ..Default::default() }) };
     {
         let mk = |s: &str| -> Rose { crate::real::parse_rose(s).unwrap() };
         let t = mk("(h41:0000000000000000[-],h42:-[-],h43:3ff0000000000000[-])h52:-[-]");
